@@ -185,6 +185,67 @@ fn run_behaviour<T: Sc>(idx: usize, h: &HiLine, par: bool, rep: &mut Report) {
     rep.count("sequences", 1);
 }
 
+/// C11: the same behaviour on a sequential and a parallel problem side by side (faults included):
+/// after every step both must expose the same things
+fn run_pair<T: Sc>(idx: usize, h: &HiLine, rep: &mut Report) {
+    let inst = Inst::<T>::new(&h.line, idx, rep);
+    let a1 = inst.line.pts[0].a.clone();
+    let mrhs = inst.s >= 2;
+    let ev = EpsVar::User;
+    let mk = |par: bool| {
+        let script = Arc::new(Mutex::new(Script::default()));
+        let model = Scripted {
+            inner: TableModel::new(inst.table.clone(), &a1),
+            script: script.clone(),
+        };
+        (build_problem(model, mrhs, par, &inst.y, inst.w.as_deref(), inst.eps_value(ev)), script)
+    };
+    let ((Ok(mut ps), ss), (Ok(mut pp), sp)) = (mk(false), mk(true)) else {
+        rep.tool_error(format!("history pair: build failed for behaviour {idx}"));
+        return;
+    };
+    let pools = [1usize, 2, 4, 16];
+    let pool = rayon::ThreadPoolBuilder::new().num_threads(pools[idx % 4]).build().unwrap();
+    for (si, st) in h.steps.iter().enumerate() {
+        let flav = format!("behaviour={} pair {} pool={}", idx, T::NAME, pools[idx % 4]);
+        for (prob, script) in [(&mut ps, &ss), (&mut pp, &sp)] {
+            match st.op.as_str() {
+                "set" => {
+                    {
+                        let mut s = script.lock().unwrap();
+                        s.fail_next_set = st.f == "setFails";
+                        s.fail_eval = st.f == "evalFails";
+                        s.nonfinite = st.f == "nonfinite";
+                    }
+                    let a: Vec<T> = inst.line.pts[st.q - 1].a.iter().map(|&v| T::of64(v as f64)).collect();
+                    pool.install(|| prob.set_params(&a));
+                    let mut s = script.lock().unwrap();
+                    s.fail_next_set = false;
+                    s.fail_eval = false;
+                    s.nonfinite = false;
+                }
+                "jac" => {
+                    script.lock().unwrap().fail_deriv = if st.g >= 0 { Some(st.g as usize) } else { None };
+                }
+                _ => {}
+            }
+        }
+        let os = observe(ps.as_ref());
+        let op = pool.install(|| observe(pp.as_ref()));
+        ss.lock().unwrap().fail_deriv = None;
+        sp.lock().unwrap().fail_deriv = None;
+        let same_presence = os.c.is_some() == op.c.is_some() && os.r.is_some() == op.r.is_some() && os.j.is_some() == op.j.is_some();
+        let dv = if same_presence { obs_close_pub(&os, &op) } else { f64::INFINITY };
+        let params_same = bits_eq(&ps.params(), &pp.params());
+        rep.check("C11", same_presence && dv <= T::tol() && params_same, if dv.is_finite() { dv } else { 0.0 }, || {
+            json!({"flavour": flav, "step": si, "op": st.op, "fault": st.f, "g": st.g,
+                   "what": "parallel and sequential problem expose different things after the same history",
+                   "seq_present": [os.c.is_some(), os.r.is_some(), os.j.is_some()], "par_present": [op.c.is_some(), op.r.is_some(), op.j.is_some()]})
+        });
+    }
+    rep.count("pair_sequences", 1);
+}
+
 #[derive(PartialEq)]
 struct Light {
     c: Option<Vec<u64>>,
@@ -213,6 +274,9 @@ pub fn run(path: &str) -> Report {
                     run_behaviour::<f64>(idx, &h, idx % 2 == 1, &mut rep);
                     if idx % 3 == 0 {
                         run_behaviour::<f32>(idx, &h, idx % 2 == 0, &mut rep);
+                    }
+                    if idx % 2 == 0 {
+                        run_pair::<f64>(idx, &h, &mut rep);
                     }
                     if idx % 211 == 0 {
                         rep.sample(json!({"fam": h.line.fam.name, "w": h.line.w, "steps": h.steps.iter().take(12).map(|s| json!([s.op, s.q, s.f, s.g, s.alpha, s.cache])).collect::<Vec<_>>()}));
